@@ -117,7 +117,18 @@ func lifeFamily(id, tier string, p map[string]bool, tweak func(kind string, o *L
 	if tier == "thorough" {
 		a.Roots = []string{"R0", "R1"}
 	}
-	return []*engine.Scenario{LifeScenario(a), LifeScenario(b), LifeScenario(c)}
+	// d: start from a state with recorded collateral debt (renewed shard migrated to a provider without funds)
+	dd := r1Life(id, tier, p)
+	dd.ID = id + "-life-debt"
+	dd.Roots = []string{"R5"}
+	dd.Depth = 4
+	if tier == "thorough" {
+		dd.Depth = 6
+	}
+	if tweak != nil {
+		tweak("debt", &dd)
+	}
+	return []*engine.Scenario{LifeScenario(a), LifeScenario(b), LifeScenario(c), LifeScenario(dd)}
 }
 
 func init() {
